@@ -56,6 +56,8 @@ enum Expect {
 struct Case {
     state: State,
     tx: usize,
+    /// unsolicited transmit size
+    utx: usize,
     ctrl: u8,
     func: u8,
     objects: Vec<u8>,
@@ -222,6 +224,7 @@ fn build(tier: &str) -> Vec<C12> {
                         cases.push(Case {
                             state,
                             tx,
+                            utx: tx,
                             ctrl,
                             func,
                             objects: vec![],
@@ -240,6 +243,7 @@ fn build(tier: &str) -> Vec<C12> {
                             cases.push(Case {
                                 state,
                                 tx,
+                                utx: tx,
                                 ctrl,
                                 func,
                                 objects: hd.bytes.clone(),
@@ -275,6 +279,7 @@ fn build(tier: &str) -> Vec<C12> {
                         cases.push(Case {
                             state,
                             tx,
+                            utx: tx,
                             ctrl,
                             func,
                             objects,
@@ -290,7 +295,7 @@ fn build(tier: &str) -> Vec<C12> {
 
     // (3) request sizes up to the receive buffer: n CROBs / n read headers
     let mut cases = Vec::new();
-    for &tx in &[249usize, 2048] {
+    for (tx, utx) in [(249usize, 249usize), (2048, 2048), (249, 2048), (2048, 249)] {
         for state in [State::Idle] {
             for func in [fc::SELECT, fc::OPERATE, fc::DIRECT_OPERATE, fc::DIRECT_OPERATE_NR] {
                 // request = 2 + 4 + 12 n ; echo = 4 + 4 + 12 n
@@ -309,7 +314,7 @@ fn build(tier: &str) -> Vec<C12> {
                     let objects = app::prefixed8(12, 1, &items);
                     let ctrl = 0xC0 | 5;
                     let e = if func == fc::DIRECT_OPERATE_NR { Expect::NoReply } else { Expect::Reply };
-                    cases.push(Case { state, tx, ctrl, func, objects, labels: vec!["n-crobs"], expect: e });
+                    cases.push(Case { state, tx, utx, ctrl, func, objects, labels: vec!["n-crobs"], expect: e });
                 }
             }
             // READ with many headers
@@ -320,7 +325,7 @@ fn build(tier: &str) -> Vec<C12> {
                 }
                 let ctrl = 0xC0 | 6;
                 let e = if n > 64 { Expect::MustError } else { Expect::Reply };
-                cases.push(Case { state, tx, ctrl, func: fc::READ, objects, labels: vec!["n-class0-headers"], expect: e });
+                cases.push(Case { state, tx, utx, ctrl, func: fc::READ, objects, labels: vec!["n-class0-headers"], expect: e });
             }
         }
     }
@@ -334,7 +339,7 @@ impl C12 {
         let mut obs = Hasher::default();
         let cfg = OCfg {
             sol_tx: c.tx,
-            unsol_tx: c.tx,
+            unsol_tx: c.utx,
             unsolicited: matches!(c.state, State::UnsolConfirmWait | State::NullUnsolConfirmWait),
             event_buf: [10; 8],
             max_unsol_retries: Some(0),
@@ -412,8 +417,9 @@ impl C12 {
         let v = (|| -> Option<Violation> {
             // W: every fragment fits the transmit size and parses cleanly
             for r in &all {
-                if r.raw.len() > c.tx {
-                    return Some(Violation::new("C12.W1", "fragment-exceeds-transmit-size", format!("{} > {}", r.raw.len(), c.tx)));
+                let limit = if r.uns() { c.utx } else { c.tx };
+                if r.raw.len() > limit {
+                    return Some(Violation::new("C12.W1", "fragment-exceeds-transmit-size", format!("{} > {} ({})", r.raw.len(), limit, if r.uns() { "unsolicited" } else { "solicited" })));
                 }
                 if let Err(e) = r.headers() {
                     return Some(Violation::new(
